@@ -92,6 +92,7 @@ Theorem fail_before_first_op_changes_nothing inj p t :
   r_trace (apply_core inj p t) = [] -> r_ok (apply_core inj p t) = false -> r_fs (apply_core inj p t) = t.
 Proof.
   unfold apply_core. destruct (first_conflict t (ap_renames p)); [cbn; auto|].
+  destruct (first_unreadable t (edits_by_file (ap_hunks p))); [cbn; auto|].
   set (s0 := {| s_fs := t; s_n := 0; s_trace := [] |}).
   pose proof (content_stage_trace inj (edits_by_file (ap_hunks p)) s0) as H.
   destruct (content_stage inj (edits_by_file (ap_hunks p)) s0) as [s1|[f s1]].
@@ -113,6 +114,7 @@ Theorem ok_iff_no_failure inj p t :
   r_ok (apply_core inj p t) = true <-> r_fail (apply_core inj p t) = None.
 Proof.
   unfold apply_core. destruct (first_conflict t (ap_renames p)); [cbn; split; discriminate|].
+  destruct (first_unreadable t (edits_by_file (ap_hunks p))); [cbn; split; discriminate|].
   destruct (content_stage inj _ _) as [s1|[f s1]]; [|cbn; split; discriminate].
   destruct (rename_stage inj _ [] [] s1) as [[[s2 perf] exe]|[[[f s2] perf] exe]]; cbn; split; congruence.
 Qed.
